@@ -465,6 +465,32 @@ theorem next_skip_passthrough (m : Mw) (x : Exchange) (h : x.skip = true) :
     passThrough x.cookies (serve m x).mid = true := by
   simp [serve, h, passThrough_keep]
 
+/-- RESPONSE DIRECTION WITH `Config.Next`: when `cfg.Next(c)` says skip the response cookies leave as the
+    handlers set them (stored key and text; nothing encrypted, nothing can panic); otherwise
+    `response_meets_spec`. -/
+theorem response_meets_spec_next {C : Codec} {wc : WireCodec} (hCor : C.Correct) (hF : C.Format wc)
+    (skip : Bool) (ex : List Bytes) (ns : List Bytes) (cs : List RCookie) (ws : List WCookie)
+    (hns : ∀ n ∈ ns, goodNonce n) (hb : ∀ c ∈ cs, IsBytes c.pvalue)
+    (h : (if skip then some (cs.map keep) else encryptJar C ex ns cs) = some ws) :
+    if skip then passThrough cs ws = true else respAllOK wc ex (issuedBy ex cs ws) cs ws = true := by
+  cases skip with
+  | true =>
+    simp only [if_true, Option.some.injEq] at h ⊢
+    subst h; exact passThrough_keep cs
+  | false =>
+    simp only [Bool.false_eq_true, if_false] at h ⊢
+    exact response_meets_spec hCor hF ex ns cs ws hns hb h
+
+/-- HOW THE HANDLERS BEHIND END DOES NOT MATTER for what they saw and for what is in the response where
+    the middleware is left: `return nil`, `return err` (the error handler answers) and `panic` (a recover
+    middleware in front answers, or nobody) give the same views and the same, encrypted, cookies — the
+    response loop is deferred. Only whether anything is sent depends on it. -/
+theorem handler_outcome_does_not_matter (m : Mw) (x : Exchange) (f : Flow) :
+    (serve m { x with flow := f }).views = (serve m x).views ∧
+    (serve m { x with flow := f }).mid = (serve m x).mid := by
+  unfold serve
+  cases x.skip <;> cases reqPanics m.decPanics m.except x.jar <;> simp
+
 /-- WHEN THE ENCRYPTOR FAILS (invalid key, custom Encryptor error or panic, `rand.Reader` error) the
     response loop stops with a panic; what is in the response at that moment — and what a recover
     middleware in front would send — is the finished work for a prefix of the handler's cookies:
